@@ -2,15 +2,18 @@
 # usage: tools/try_seed.sh <dir with patch.diff + demo> <property> [tier]
 # confirms a seeded change (demo passes clean / fails changed, suite passes changed) in a scratch worktree and runs
 # the check against that worktree (VERIF_REPO + PYTHONPATH), so /repo itself stays untouched.
-D=$(realpath "$1"); P=$2; TIER=${3:-quick}
+# VROOT (default /verif) = the copy of the verification tree to run the check from (parallel runs use private copies).
+D=$(realpath "$1"); P=$2; TIER=${3:-quick}; VROOT=${VROOT:-/verif}
 WT=/tmp/wt/confirm-$$
 git -C /repo worktree add --detach $WT HEAD >/dev/null 2>&1 || exit 3
 demo=$(ls $D/demo_test.py $D/demo.py 2>/dev/null | head -1)
-rundemo() { if [[ $demo == *_test.py ]]; then (cd $WT && PYTHONPATH=$WT /venv/bin/python -m pytest -q -p no:cacheprovider -x $demo >/dev/null 2>&1); else (cd $WT && PYTHONPATH=$WT /venv/bin/python $demo >/dev/null 2>&1); fi; echo $?; }
+rundemo() { if [[ -z "$demo" ]]; then echo "-"; elif [[ $demo == *_test.py ]]; then (cd $WT && PYTHONPATH=$WT /venv/bin/python -m pytest -q -p no:cacheprovider -x $demo >/dev/null 2>&1); echo $?; else (cd $WT && PYTHONPATH=$WT /venv/bin/python $demo >/dev/null 2>&1); echo $?; fi; }
 echo "== $D ($P)"
 echo "demo on clean tree: exit $(rundemo)"
 git -C $WT apply $D/patch.diff || { echo "patch does not apply"; git -C /repo worktree remove --force $WT; exit 3; }
 echo "demo with change:   exit $(rundemo)"
-(cd $WT && PYTHONPATH=$WT /venv/bin/python -m pytest -q -p no:cacheprovider --timeout=900 --continue-on-collection-errors 2>&1 | tail -1)
-(cd /verif && VERIF_REPO=$WT PYTHONPATH=$WT ./check $P --tier $TIER 2>&1 | grep -v conda | tail -4)
+if [[ -z "$NOSUITE" ]]; then (cd $WT && PYTHONPATH=$WT /venv/bin/python -m pytest -q -p no:cacheprovider --timeout=900 --continue-on-collection-errors 2>&1 | tail -1); fi
+for p in $P; do
+  (cd $VROOT && VERIF_REPO=$WT PYTHONPATH=$WT ./check $p --tier $TIER 2>&1 | grep -v conda | tail -4)
+done
 git -C /repo worktree remove --force $WT
